@@ -107,9 +107,10 @@ def build_methods(specs: List[Dict[str, Any]], shared: Dict[str, Any]):
     """-> (list of pjrpc Method objects in order, dict fname -> function, user objects to fingerprint)"""
     ns = dict(NS, ViewMixin=pjrpc.server.ViewMixin, __name__='vmon_spec_programs')
     methods, funcs = [], {}
-    for m in specs:
+    import re
+    for n_spec, m in enumerate(specs):
         m = dict(m)
-        m.setdefault('fname', m['name'].replace('.', '_'))
+        m.setdefault('fname', re.sub(r'\W', '_', m['name']) + ('' if re.fullmatch(r'[\w.]+', m['name']) else f'_{n_spec}'))
         if m.get('view'):
             src = 'class V_%s(ViewMixin):\n    def __init__(self, context=None):\n        super().__init__()\n' % m['fname']
             src += '\n'.join('    ' + l for l in method_source(m, True).splitlines())
